@@ -12,8 +12,10 @@ open Claripy.Gen.SolverMro
 variable {R : Con → Prop} {RE : Exp → Prop} {E : Env}
 
 /-- the cached models of a frontend mention variables of that frontend only (`_model_hook` restricts the Z3 model to
-`self.variables`; the trivial model is about the variable of the constraint) -/
-def KeysInv (fe : Frontend) : Prop := ∀ m ∈ fe.models, ∀ kv ∈ m, kv.1 ∈ fe.variables
+`self.variables`; the trivial model is about the variable of the constraint), and they are dicts: one entry per variable
+(`PModel.Sorted`; the models come from `_generic_model` through `_model_hook`, from the trivial-constraint shortcut, from
+`ModelCache.combine`, or are restrictions / selections of cached ones) -/
+def KeysInv (fe : Frontend) : Prop := ∀ m ∈ fe.models, (∀ kv ∈ m, kv.1 ∈ fe.variables) ∧ m.Sorted
 
 /-- every known variable occurs in a constraint (true as long as nothing was simplified away) -/
 def ExactVars (fe : Frontend) : Prop := ∀ v ∈ fe.variables, ∃ c ∈ fe.constraints, v ∈ c.vars
